@@ -79,6 +79,19 @@ def chain_inputs(r):
     return r.sample(outs, r.randint(3, 5))
 
 
+# bounded gaps verified by the regexp engine: /start.{4,8}end/ (greedy, no /s: '.' is not a newline), /start.{4,8}?end/, and the hex string
+# { 73 74 61 ( 72 | 52 ) 74 [4-8] 65 6e 64 }; inputs that END inside the gap, have a newline inside it, a gap below the minimum / at the
+# maximum / above it. The fibers (with their repeat counters) come from the scanner's pool.
+GAP_WORDS = [b"start12", b"startXend", b"start1234end", b"start12\n34end", b"start12345678end", b"start123456789end", b"staRt1234end",
+             b"start12\n", b"startend", b"start123"]
+
+
+def gap_inputs(r):
+    outs = [sl.Input(w) for w in r.sample(GAP_WORDS, 4)]
+    outs.append(sl.Input(b" ".join(r.sample(GAP_WORDS, 3)) + r.choice([b"", b" start12", b" start1"])))
+    return outs
+
+
 def gen_pool(r, bomb=False):
     """inputs of one case; returns list of Input (single block) + description"""
     pool = []
@@ -100,7 +113,7 @@ def gen_pool(r, bomb=False):
     return pool
 
 
-def gen_ruleset(r, pool, bomb=False, pad=None, chains=False):
+def gen_ruleset(r, pool, bomb=False, pad=None, chains=False, gaps=False):
     """pad: None | 'strings' | 'rules' | 'ns9' | 'ns65' — filler strings / rules / namespaces in FRONT of everything else, so that
     every string / rule / namespace that matters has an index beyond the first word (and byte) of the scanner's bitmaps and arrays"""
     eps = sorted(({sl.entry_point_offset(i.data) for i in pool} | {sl.entry_point_address(i.data, 0) for i in pool}) - {None})
@@ -146,6 +159,10 @@ def gen_ruleset(r, pool, bomb=False, pad=None, chains=False):
         s_r = sid(); add(r.choice([("str", s_r), ("cnt", s_r, 2)]), strings=[sl.Rx("xy+z")])
     if r.random() < 0.6:
         s_r = sid(); add(("str", s_r), strings=[sl.Rx("w[a-ce-z]{2,4}d")])
+    if gaps:
+        for st in r.sample([sl.Rx("start.{4,8}end"), sl.Rx("start.{4,8}?end"), sl.Rx("sta[rR]t.{2,5}end"),
+                            sl.HexAlt(b"sta", b"rR", b"t", 4, 8, b"end")], r.randint(2, 4)):
+            s_r = sid(); add(r.choice([("str", s_r), ("cnt", s_r, 1)]), strings=[st])
     # fullword strings: the delimiter test looks at the bytes around the match, never beyond the block
     if r.random() < 0.7:
         s_r = sid(); add(r.choice([("str", s_r), ("cnt", s_r, 1)]), strings=[sl.Fullword(r.choice([b"hello", b"world", b"he"]))])
@@ -332,10 +349,14 @@ def gen_case(r, cid):
 def gen_case1(r, cid):
     bomb = r.random() < 0.35
     chains = r.random() < 0.45
+    gaps = r.random() < 0.5
     pad = r.choice([None, None, None, "strings", "strings", "rules", "ns9", "ns65"])
     pool = gen_pool(r, bomb)
     if chains:
         pool += chain_inputs(r)
+        r.shuffle(pool)
+    if gaps:
+        pool += gap_inputs(r)
         r.shuffle(pool)
     inputs = list(pool)
     for x in pool:
@@ -349,8 +370,8 @@ def gen_case1(r, cid):
             avail = [r.random() > 0.08 for _ in parts]
             inputs.append(x.with_parts(parts, avail))
     inputs = inputs[:12]
-    rs = gen_ruleset(r, pool, bomb, pad, chains)
-    rs.pad, rs.bomb, rs.chained = pad, bomb, chains
+    rs = gen_ruleset(r, pool, bomb, pad, chains, gaps)
+    rs.pad, rs.bomb, rs.chained, rs.gaps = pad, bomb, chains, gaps
     # yr_execute_code tests the timeout every 100 instructions: only a rule set that starts and ends with a long loop
     # makes the position of that test unobservable, so only those are combined with a timeout
     timeout = r.choice([0, 1000, 1000]) if rs.has_burn else 0
@@ -445,7 +466,7 @@ def run_body(chk, lres, b, tier, replay):
         cases += extra
         shapes = {}
         for c in cases:
-            for k in ("pad=%s" % c["rs"].pad, "regexp_fiber_bomb=%s" % c["rs"].bomb, "chained_strings=%s" % getattr(c["rs"], "chained", False)):
+            for k in ("pad=%s" % c["rs"].pad, "regexp_fiber_bomb=%s" % c["rs"].bomb, "chained_strings=%s" % getattr(c["rs"], "chained", False), "bounded_gap_regexps=%s" % getattr(c["rs"], "gaps", False)):
                 shapes[k] = shapes.get(k, 0) + 1
         chk.cov["rule_set_shapes"] = shapes
         chk.cov["rule_set_sizes"] = {"max_rules": max(len(c["rs"].rules) for c in cases), "max_strings": max(c["rs"].nstrings for c in cases),
